@@ -64,6 +64,9 @@ ASSUMPTIONS = [
 
 GRID = [0.5, 1.0, 2.0, 3.0, 5.0]
 SCHEDULES = [list(c) for k in range(1, 6) for c in itertools.combinations(GRID, k)]       # 31
+EXTREME = [([1_000_000.0, 1_000_001.0, 1_000_002.0, 1_000_003.0], 0.0),
+           ([86400.0, 86400.25, 86400.5, 86401.0], 86399.0),
+           ([2e-9, 4e-9, 6e-9], 0.0), ([1e-12, 1.5e-12, 1e-9], 0.0), ([1e15, 1e15 + 2.0, 1e15 + 4.0], 1.0)]
 ITEMS = ["scene", "photon", "charge_array", "charge_clusters", "pixel", "signal", "image"]
 HISTORIES = ["fresh", "full", "failed", "prefilled", "twin"]
 ROWS, COLS = 2, 3
@@ -226,6 +229,13 @@ def enumerate_cases(tier, seed):
                     start = [0.0, 0.25, -1.0][(si + pi) % 3]
                     cases.append({"fam": "L", "times": times, "start": start, "nd": nd, "pattern": pat, "history": h,
                                   "det": "ccd", "entry": "ctor", "rep": "list", "inf": bool((si + pi) % 2)})
+    # schedules at extreme time scales (fine sampling late in a long run, nanosecond exposures): the clock and the
+    # first / last flags follow the step counter, not the magnitude of the times
+    for times, start in EXTREME:
+        for nd in (False, True):
+            for api in ("run_mode", "deprecated"):
+                cases.append({"fam": "L", "times": times, "start": start, "nd": nd, "pattern": ["pixel"], "history": "fresh",
+                              "det": "ccd", "entry": "ctor", "rep": "list", **({"api": api} if api == "deprecated" else {})})
     # the legacy entry point pyxel.exposure_mode on the same lifecycle cases (reduced product)
     for si, times in enumerate(SCHEDULES):
         for nd in (False, True):
@@ -315,9 +325,9 @@ def enumerate_cases(tier, seed):
 def expected_size(tier, seed):
     thorough = tier == "thorough"
     if thorough:
-        n_l = 31 * 2 * 128 * 5 + 31 * 2 * 3
+        n_l = 31 * 2 * 128 * 5 + 31 * 2 * 3 + len(EXTREME) * 4
     else:
-        n_l = 31 * 2 * 10 * 2 + 31 * 2 * 3 + 31 * 2 * 2
+        n_l = 31 * 2 * 10 * 2 + 31 * 2 * 3 + 31 * 2 * 2 + len(EXTREME) * 4
     n_d = 3 * 4 * 2 * 5 * 2 + (3 * 2 * 128 if thorough else 2 * 2 * 9)
     n_r = 0
     for si, times in enumerate(SCHEDULES):
